@@ -201,6 +201,48 @@ example : Lemmas.AggPerm.ValAntisym [.int 3, .null, .str ['a'], .int 3, .int 5] 
 /-- the hypothesis is needed: `min` over a column mixing booleans and integers depends on the order -/
 example : aggVal .min [.bool true, .int 1] ≠ aggVal .min [.int 1, .bool true] := by decide
 
+
+/-! ### T2-chain: any cut of the pipeline into SELECT blocks (sub-queries / CTEs) denotes the same rows -/
+
+/-- a chain of blocks: each element is (width of its input rows, its segment); every segment is admissible as ONE block
+over the rows the pipeline has produced so far -/
+def ChainAdm (resolve : Src → Table) : Table → List (Nat × List Tr) → Prop
+  | _, [] => True
+  | T, (w, seg) :: rest =>
+    (∀ r ∈ T.rows, r.length = w) ∧ AdmSeg (Block.init w) T.rows seg ∧ ChainAdm resolve (seg.foldl (step resolve) T) rest
+
+/-- the chain evaluated the SQL way: every block is one SELECT (clause order) over the result of the previous one -/
+def evalChain : List Row → List (Nat × List Tr) → List Row
+  | rows, [] => rows
+  | rows, (w, seg) :: rest => evalChain (evalBlock (assemble w seg) rows) rest
+
+/-- however the pipeline is cut into admissible blocks - one SELECT, or any number of nested sub-queries / CTEs - the
+chain of SELECT blocks returns exactly the rows the transforms, applied in pipeline order, denote -/
+theorem chain_correct_rel (resolve : Src → Table) (segs : List (Nat × List Tr)) (T : Table)
+    (h : ChainAdm resolve T segs) :
+    ((segs.flatMap (·.2)).foldl (step resolve) T).rows = evalChain T.rows segs := by
+  induction segs generalizing T with
+  | nil => rfl
+  | cons ws rest ih =>
+    obtain ⟨w, seg⟩ := ws
+    obtain ⟨hw, hadm, hrest⟩ := h
+    simp only [List.flatMap_cons, List.foldl_append, evalChain]
+    rw [ih _ hrest, assemble_correct_rel resolve w seg T hw hadm]
+
+/-- two different cuts of the same pipeline agree (so the compiler's choice of split points cannot matter) -/
+theorem chain_cut_independent (resolve : Src → Table) (s1 s2 : List (Nat × List Tr)) (T : Table)
+    (h1 : ChainAdm resolve T s1) (h2 : ChainAdm resolve T s2) (hsame : s1.flatMap (·.2) = s2.flatMap (·.2)) :
+    evalChain T.rows s1 = evalChain T.rows s2 := by
+  rw [← chain_correct_rel resolve s1 T h1, ← chain_correct_rel resolve s2 T h2, hsame]
+
+/-- non-vacuity: `exSegAgg` cut after its aggregate (a sub-query boundary) - the chain is admissible and returns the same row -/
+example : ChainAdm (fun _ => { rows := [] }) exTable [(3, exSegAgg.take 3), (3, exSegAgg.drop 3)] := by
+  refine ⟨by decide, ⟨rfl, trivial, ⟨rfl, rfl, rfl⟩, trivial⟩, ?_, ?_, trivial⟩
+  · decide
+  · refine ⟨rfl, ⟨rfl, Or.inl rfl⟩, ?_, trivial⟩
+    intro a h; cases h; decide
+example : evalChain exTable.rows [(3, exSegAgg.take 3), (3, exSegAgg.drop 3)] = [[.str ['y'], .int 9, .int 7]] := by decide
+
 end RelBlock
 
 /-- T3a: the redirect of column ids at a split is an α-renaming: it commutes with evaluation -/
